@@ -25,6 +25,12 @@ def blake_bytes(key, *args):
     return hashlib.blake2b(key, digest_size=16).digest()
 
 
+@hash_with_depth_bytes
+def salted_bytes(key, idx=0):
+    """a bytes digest that really uses the round index it is given"""
+    return hashlib.blake2b(key, digest_size=16, salt=int(idx).to_bytes(8, "little")).digest()
+
+
 @hash_with_depth_int
 def crc_int(key, depth=0):
     if isinstance(key, str):
@@ -40,6 +46,7 @@ SHIPPED = {
     "sha256": default_sha256,
     "dec_bytes": blake_bytes,
     "dec_int": crc_int,
+    "dec_salted": salted_bytes,
 }
 
 _table_cache = {}
